@@ -195,30 +195,52 @@ theorem pythValueToDecimal_spec {value t q : Nat} {e : Int} {r : Decimal}
       · obtain ⟨rfl, rfl⟩ := p1 hc; exact hv
       · obtain ⟨rfl, rfl⟩ := p2 hc; rw [hv, exact_ge (Nat.zero_le _), Nat.sub_zero]
 
-/-- **F-C26 witness**: for the exponent `i32::MIN` the negation `-exponent` overflows; with overflow
-checks on (the repo's release profile) the call panics instead of returning an error. -/
-theorem pyth_min_exponent_witness : pythValueToDecimal 1 (-(2 ^ 31)) 8 2 = .error .panic := by decide
+/-- the former F-C26 input (exponent `i32::MIN`, fixed by /repo 95e9782) now yields the
+"exponent too small" error … -/
+theorem pyth_min_exponent_error : pythValueToDecimal 1 (-(2 ^ 31)) 8 2 = .error .exponentTooSmall := by
+  decide
 
-/-- … and that is the only way it can: every other `i32` exponent yields a value or an error. -/
-theorem pythValueToDecimal_partial (value : Nat) (e : Int) (t q : Nat) (h : -(2 ^ 31) < e) :
-    pythValueToDecimal value e t q ≠ .error .panic := by
-  unfold pythValueToDecimal
-  cases hp : pythPre value e with
-  | error x =>
-    simp only
-    intro hc; cases hc
-    unfold pythPre at hp
-    by_cases he : e ≤ 0
-    · rw [if_pos he, if_neg (by omega)] at hp
-      split at hp <;> cases hp
-    · rw [if_neg he] at hp
-      split at hp
-      · cases hp
-      · split at hp <;> cases hp
-  | ok vd =>
-    obtain ⟨v, d⟩ := vd
-    simp only
-    cases tryFromPrice v d t q <;> simp
+/-- … and in general: every exponent is answered by a value or an error (the result type has no
+panic outcome any more); `exponent too small` exactly for `e ≤ −256`, and every exponent below
+`−20` (more decimals than the supported maximum) is an error. -/
+theorem pyth_exponent_errors (value : Nat) (e : Int) (t q : Nat) :
+    (pythValueToDecimal value e t q = .error .exponentTooSmall ↔ e ≤ -256) ∧
+    (e < -20 → ∃ err, pythValueToDecimal value e t q = .error err) := by
+  have hpre : e ≤ -256 → pythPre value e = .error .exponentTooSmall := by
+    intro h; unfold pythPre; rw [if_pos (by omega), if_neg (by omega)]
+  have hpre2 : ¬ e ≤ -256 → e ≤ 0 → pythPre value e = .ok (value, (-e).toNat) := by
+    intro h h0; unfold pythPre; rw [if_pos h0, if_pos (by omega)]
+  refine ⟨⟨fun h => ?_, fun h => ?_⟩, fun h => ?_⟩
+  · by_cases hs : e ≤ -256
+    · exact hs
+    · exfalso
+      unfold pythValueToDecimal at h
+      by_cases h0 : e ≤ 0
+      · rw [hpre2 hs h0] at h
+        simp only at h
+        cases hr : tryFromPrice value (-e).toNat t q <;> rw [hr] at h <;> cases h
+      · cases hp : pythPre value e with
+        | error x =>
+          rw [hp] at h; simp only at h; cases h
+          unfold pythPre at hp
+          rw [if_neg h0] at hp
+          split at hp
+          · cases hp
+          · split at hp <;> cases hp
+        | ok vd =>
+          obtain ⟨v, d⟩ := vd
+          rw [hp] at h; simp only at h
+          cases hr : tryFromPrice v d t q <;> rw [hr] at h <;> cases h
+  · unfold pythValueToDecimal; rw [hpre h]
+  · by_cases hs : e ≤ -256
+    · exact ⟨_, by unfold pythValueToDecimal; rw [hpre hs]⟩
+    · unfold pythValueToDecimal
+      rw [hpre2 hs (by omega)]
+      simp only
+      have hx : tryFromPrice value (-e).toNat t q = .error .exceedMaxDecimals :=
+        (exceed_iff value (-e).toNat t q).2 (by omega)
+      rw [hx]
+      exact ⟨_, rfl⟩
 
 /-! ### Non-vacuity (the repo's own examples and boundary cases) -/
 example : tryFromPrice 5000000000000000000000 18 8 4 = .ok ⟨50000000, 8⟩ := by decide
